@@ -509,9 +509,22 @@ func c28Drain[T any](ch chan T, wait time.Duration) (n int, closed bool) {
 func (h *c28H) closeRace(n int, hangup bool) bool {
 	h.closeRaces++
 	n = min(max(n, 2), 8)
+	// every subscription the client still has registered is stopped at the same
+	// moment by a goroutine of its own: Stop and Close both take the handler out
+	// of the dispatch table and clean it up (the Stop's request may fail on the
+	// closing connection; the call just has to come back)
+	var stops []client.StreamHandle
+	for _, sub := range h.subs {
+		if sub.reg && sub.initOK && len(stops) < 3 {
+			stops = append(stops, sub.handle)
+			sub.reg = false
+		}
+	}
+	total := n + len(stops)
 	var ready, goFlag atomic.Int64
-	done := make(chan struct{}, n)
-	for i := 0; i < n; i++ {
+	done := make(chan struct{}, total)
+	for i := 0; i < total; i++ {
+		i := i
 		go func() {
 			ready.Add(1)
 			for spin := 0; goFlag.Load() == 0; spin++ {
@@ -519,10 +532,15 @@ func (h *c28H) closeRace(n int, hangup bool) bool {
 					runtime.Gosched()
 				}
 			}
-			_ = h.cl.Close()
+			if i < n {
+				_ = h.cl.Close()
+			} else {
+				_ = h.cl.Stop(stops[i-n])
+			}
 			done <- struct{}{}
 		}()
 	}
+	n = total
 	for ready.Load() < int64(n) {
 		runtime.Gosched()
 	}
